@@ -229,6 +229,7 @@ def gen_cases(ctx):
     yield {"kind": "gen", "app": "ape", "toks": ["--downsample", "500", "--t_offset", "-0.5", "--n_to_align", "-1"], "corpus": "F3"}
     yield {"kind": "gen", "app": "ape", "toks": ["--align", "--plot", "--plot_mode", "xz", "--verbose"], "corpus": "help-example"}
     yield {"kind": "gen", "app": "traj", "toks": ["--motion_filter", "0.5", "-3", "--downsample", "10"], "corpus": "nargs2"}
+    yield {"kind": "gen", "app": "ape", "toks": ["--t_max_diff", "2.5e0", "--t_offset", "1e-3"], "corpus": "exponent-values"}
     for t in ["500", "-0.5", "1e3", "3.0", "--1", "1e", ".", "-.5", "10.", "0.1", "1e23", "-0", "+5", "", "-"]:
         yield {"kind": "tok", "tok": t}
     for _ in range(150 if not ctx.thorough else 1500):
@@ -402,6 +403,7 @@ def evaluate(ctx, cases):
             jobs.append((case, dict(info, which="generate"), f"C18 generate {enc_strs(toks)}"))
             jobs.append((case, dict(info, which="argparse"), f"C18 argparse {case['app']} {enc_strs(toks)}"))
             jobs.append((case, dict(info, which="viaconfig"), f"C18 viaconfig {case['app']} {enc_strs(toks)}"))
+            jobs.append((case, dict(info, which="wfargs"), f"C18 wfargs {case['app']} {enc_strs(toks)}"))
         else:
             raise core.ToolError(f"unknown case kind {kind}")
     live = [(c, i, l) for (c, i, l) in jobs if l is not None]
@@ -609,6 +611,16 @@ def judge_gen(ctx, case, info, out, seen_gen):
             a, b = ns_canon(info["direct"]), dec_ns(out)
             ctx.mismatch(case, "parse_args namespace differs from Config.argparseLong",
                          {k: (a.get(k), b.get(k)) for k in set(a) | set(b) if a.get(k) != b.get(k)}, None)
+        return
+    if which == "wfargs":
+        # hypothesis of generate_equiv_args: a well-formed list must be accepted by both real readers
+        if out == "1":
+            ctx.count("branch", "gen:well-formed (hypothesis of generate_equiv_args)")
+            if info["exc_direct"] is not None or info["via"] is None:
+                ctx.mismatch(case, "the model calls the list well-formed, but evo/argparse rejects it",
+                             [info["exc_direct"], info["exc_via"]], "well-formed")
+        else:
+            ctx.count("branch", "gen:outside-the-modelled-classes")
         return
     # which == "viaconfig": model of generate + merge_config, and the oracle
     if info["via"] is not None and not out.startswith("E_"):
